@@ -124,7 +124,19 @@ class Renderer:
             out = '<table id="%s">\n<caption style="caption-side: bottom;">%s</caption>\n' % (label(b.caption), esc(b.caption)) if b.caption else '<table>\n'
             out += '<colgroup>\n' + ''.join('<col%s/>\n' % (sty[a] if a != 'n' else ' ') for a in b.aligns) + '</colgroup>\n\n'
             out += '<thead>\n<tr>\n' + ''.join('\t<th%s> %s </th>\n' % (sty[a], self.inl(c)) for a, c in zip(b.aligns, b.header)) + '</tr>\n</thead>\n\n'
-            out += '<tbody>\n' + ''.join('<tr>\n' + ''.join('\t<td%s> %s </td>\n' % (sty[a], self.inl(c)) for a, c in zip(b.aligns, r)) + '</tr>\n' for r in b.rows) + '</tbody>\n</table>'
+            out += '<tbody>\n'
+            for r in b.rows:
+                out += '<tr>\n'
+                col = 0
+                for c in r:
+                    if getattr(c, 'kind', None) == 'cellspan':
+                        out += '\t<td%s colspan="%d"> %s </td>\n' % (sty[b.aligns[col]], c.n, self.inl(c.ch))
+                        col += c.n
+                    else:
+                        out += '\t<td%s> %s </td>\n' % (sty[b.aligns[col]], self.inl(c))
+                        col += 1
+                out += '</tr>\n'
+            out += '</tbody>\n</table>'
             return out
         if k == 'deflist':
             parts = []
